@@ -1316,7 +1316,9 @@ uint64_t _GD_FindVersion(DIRFILE *D)
     D->av &= GD_VERS_GE_3;
 
   for (i = 0; D->av && i < (unsigned int)D->n_fragment; ++i) {
-    if (D->fragment[i].px || D->fragment[i].sx)
+    if (D->fragment[i].nsl)
+      D->av &= GD_VERS_GE_10;
+    else if (D->fragment[i].px || D->fragment[i].sx)
       D->av &= GD_VERS_GE_9;
     else if (D->fragment[i].byte_sex & GD_ARM_FLAG)
       /* on an arm-endian platform, the arm flag is set by /ENDIAN directives
